@@ -1092,6 +1092,7 @@ func (api *API) parsePinPathOrError(w http.ResponseWriter, r *http.Request) *typ
 	err = pinPath.PinOptions.FromQuery(r.URL.Query())
 	if err != nil {
 		api.sendResponse(w, http.StatusBadRequest, err, nil)
+		return nil
 	}
 	return pinPath
 }
@@ -1110,6 +1111,7 @@ func (api *API) parseCidOrError(w http.ResponseWriter, r *http.Request) *types.P
 	err = opts.FromQuery(r.URL.Query())
 	if err != nil {
 		api.sendResponse(w, http.StatusBadRequest, err, nil)
+		return nil
 	}
 	pin := types.PinWithOpts(c, opts)
 	pin.MaxDepth = -1 // For now, all pins are recursive
